@@ -331,6 +331,9 @@ def check(tier="quick", seed=0, workers=None, only=None):
     from . import conc
     cst, cinfo = conc.run_for("C15", tier, seed, workers, only) if not only else (engine.Stats(bound=None), {})
     viols += common.collect(cst, ("C15",))
+    for v in common.collect(cst, ("C07",)):
+        if v["oracle"] == "C07.deadlock":       # "a call never hangs once its input has ended"
+            viols.append(dict(v, oracle="C15.hang", message="a caller never returns: " + v["message"]))
     st.evaluations += cst.evaluations
     # (d) the real backends over OS / runtime level fakes: every OS-level operation x every exception of the runtime's alphabet
     from . import backends
